@@ -10,6 +10,7 @@
     by the expr stream (random trees rendered from the precedence table, unparenthesised same-level and mixed-level chains)
     and the implementation-only check that redundant parentheses never change the result. *)
 From Pakhi Require Import Base Float64 Syntax Tables Lexer Parser Interp.
+From Pakhi.Proofs Require Import LadderFacts.
 From Pakhi.Proofs Require Import ExprSem ParseRender.
 Local Open Scope nat_scope.
 
@@ -136,3 +137,20 @@ Example C01_left_assoc_and_precedence :
   match front (fun _ => None) [] [109%N] 200 [2470;2503;2454;2494;2451;32;2536;32;43;32;2537;32;42;32;2538;59]%N with
   | Ok (FPrint (EBin BAdd (ENum _ _) (EBin BMul (ENum _ _) (ENum _ _) _) _) _ :: _) => True | _ => False end.
 Proof. vm_compute. split; exact I. Qed.
+
+(* the ladder of the model is the ladder the source has NOW: [ladder] and [unary_kinds] are regenerated from parser.rs on
+   every run (the chain of level functions and the token kinds each level's loop matches); the model's binop_at and unary
+   level agree with them for every level and every token kind *)
+Theorem C01_ladder_of_the_source_is_the_ladder_of_the_model : forall lvl k, (lvl < 6)%nat ->
+  in_level k (nth lvl ladder []) = match binop_at lvl k with Some _ => true | None => false end.
+Proof. exact ladder_is_binop_at. Qed.
+Print Assumptions C01_ladder_of_the_source_is_the_ladder_of_the_model.
+
+Theorem C01_no_operator_outside_the_ladder : forall lvl k, (6 <= lvl)%nat -> binop_at lvl k = None.
+Proof. exact no_operator_outside_the_ladder. Qed.
+Print Assumptions C01_no_operator_outside_the_ladder.
+
+Theorem C01_unary_level_of_the_source : forall k,
+  in_level k unary_kinds = match k with TNot | TMinus => true | _ => false end.
+Proof. exact unary_kinds_are_the_unary_level. Qed.
+Print Assumptions C01_unary_level_of_the_source.
